@@ -9,8 +9,9 @@ structure St where
   cache : Cache
   now : Nat
   ok : Bool     -- a reset line has been seen
+  base : Nat := 0   -- Unix second of model time 0 (read off the clock by the harness)
 
-def St.init : St := ⟨⟨[], 0⟩, [], Cache.new 0, 0, false⟩
+def St.init : St := ⟨⟨[], 0⟩, [], Cache.new 0, 0, false, 0⟩
 
 abbrev P := StateT (List String) Option
 
@@ -28,14 +29,14 @@ def pEnd : P Unit := fun s => match s with | [] => some ((), []) | _ => none
 def showVerdict : Verdict → String
   | .blocked true => "1" | .blocked false => "0" | .upstreamErr => "err"
 
-def showDump (c : Cache) : List String :=
-  toString c.lru.length :: c.lru.flatMap (fun it =>
-    hexEncode it.key :: toString it.exp :: toString it.hs.length :: it.hs.map hexEncode)
+/-- the cache as golibs/cache holds it: key and raw value bytes, least recently used first -/
+def showDump (base : Nat) (c : Cache) : List String :=
+  toString c.lru.length :: c.lru.flatMap (fun it => [hexEncode it.key, hexEncode (encodeItem base it)])
 
-def showOut (o : Outcome) (c : Cache) : String :=
+def showOut (base : Nat) (o : Outcome) (c : Cache) : String :=
   "\t".intercalate ([showVerdict o.verdict,
     (match o.question with | some _ => "1" | none => "0"),
-    (match o.question with | some q => hexEncode q | none => "-")] ++ showDump c)
+    (match o.question with | some q => hexEncode q | none => "-")] ++ showDump base c)
 
 def perms {α} : List α → List (List α)
   | [] => [[]]
@@ -64,17 +65,17 @@ def stepCheck (st : St) (ins impl : List String) : Option (St × String) := do
   let canon := run canonGroups
   -- Go's map iteration order is not determined: accept any order of the groups
   let pick : Outcome × Cache :=
-    if showOut canon.1 canon.2 == implStr then canon else
+    if showOut st.base canon.1 canon.2 == implStr then canon else
     match canon.1.question.bind exch with
     | none => canon
     | some answer =>
       let gs := canonGroups (receivedHashes answer)
       if gs.length < 2 || gs.length > 6 then canon else
       match (perms gs).find? (fun p => validGroups (receivedHashes answer) p &&
-          (let r := run (fun _ => p); showOut r.1 r.2 == implStr)) with
+          (let r := run (fun _ => p); showOut st.base r.1 r.2 == implStr)) with
       | some p => run (fun _ => p)
       | none => canon
-  let modelStr := showOut pick.1 pick.2
+  let modelStr := showOut st.base pick.1 pick.2
   -- monitor on the implementation's observation
   let (iv, iasked, iq) ← (match impl with
     | v :: a :: q :: _ => do
@@ -147,8 +148,16 @@ def step (st : St) (line : String) : St × String :=
           pure (ttl, maxSize, suffix, db) : P _).run ins) with
       | some ((ttl, maxSize, suffix, db), _) =>
         if !db.all (fun h => h.length == 32) then (st, "bad-op") else
-        (⟨⟨suffix, ttl⟩, db, Cache.new maxSize, 0, true⟩, verdict (impl == ["ok"]) none "ok")
+        let base := ((impl.drop 1).headD "0").toNat?.getD 0
+        (⟨⟨suffix, ttl⟩, db, Cache.new maxSize, 0, true, base⟩, verdict (impl.headD "" == "ok") none "ok")
       | none => (st, "bad-op")
+    | none => (st, "bad-op")
+  | "C19.consts" :: rest =>
+    -- extracted constants of hashprefix.go against the model's (`C19_constants`)
+    let want := " ".intercalate ([prefixLen, hashSize, hexSize, subDomainNum, expirySize].map toString)
+    match splitArrow rest with
+    | some (_, impl) =>
+      (st, verdict (impl == [want]) (if impl == [want] then none else some "C19.constants") want)
     | none => (st, "bad-op")
   | "C19.host" :: rest =>
     match splitArrow rest with
